@@ -223,3 +223,40 @@ PROPS["C04"] = dict(
                  "registration order = Vec order (SubApp::with_route pushes; not exercised by the harness, which builds the vectors directly)"],
     not_covered=["configurations with more than 2 host sub-apps or more than 2 routes per sub-app", "the tokio twin in humphrey/src/tokio/app.rs", "that the 404 response is produced when no handler is found (client_handler)"],
 )
+
+_C16 = [
+    ("c16_get_pop0", "get on the empty cache returns nothing"),
+    ("c16_get_pop1_s3", "get, 1 stored entry (3 bytes)"),
+    ("c16_get_pop1_s0", "get, 1 stored empty entry, limit 0"),
+    ("c16_get_pop2_s1_s3", "get, 2 stored entries (1 and 3 bytes) whose keys differ in path / host / both"),
+    ("c16_get_pop2_s0_s2", "get, 2 stored entries (0 and 2 bytes)"),
+]
+_C16S = [
+    ("c16_set_empty_n0_l0", "set of an empty item into an empty cache with limit 0"),
+    ("c16_set_empty_n3_l3", "set of an item exactly as large as the limit into an empty cache"),
+    ("c16_set_empty_n1_l6", "set into an empty cache with room to spare"),
+    ("c16_set_pop1_evict_n1_l1", "set that must evict the only entry (limit 1)"),
+    ("c16_set_pop1_evict_n2_l4", "set that must evict the only entry (3+2 > 4)"),
+]
+PROPS["C16"] = dict(
+    level="model_checking",
+    steps=[
+        dict(kind="kani", crate="humphrey_server", module="in_server", tag="c16", jobs=8, harnesses=
+             [H(n, "bounded", "Cache::get contract from an ARBITRARY well-formed cache of that shape (symbolic key, clock, entry ages, contents): "
+                "returns nothing, or exactly the entry stored under this (path, host) with its bytes and MIME type, not older than the time limit; changes nothing -- " + d,
+                bound="population and entry sizes as named; 3 paths x 2 hosts", timeout=600) for n, d in _C16] +
+             [H(n, "bounded", "Cache::set contract from an ARBITRARY well-formed cache of that shape with item <= limit: invariant kept (distinct keys, cache_size = sum <= limit), "
+                "the item is retrievable immediately with exactly its bytes and MIME type, survivors keep their own data, eviction is oldest-first -- " + d,
+                bound="population and sizes as named", timeout=600) for n, d in _C16S]),
+    ],
+    kani_functions=[dict(file="humphrey-server/src/server/cache.rs", item="Cache::get, Cache::set", engine="kani")],
+    assumptions=[
+        "the clock is monotone (entry times are not in the future); SystemTime::now replaced by a ghost clock",
+        "RwLock gives set exclusive access (Rust typing); threads not explored",
+        "VecDeque capacity pre-sized in the harness so that std's ring-buffer growth is not part of the query",
+    ],
+    not_covered=[
+        "Cache::set when an older entry SURVIVES (replace-in-place, partial eviction, insertion next to existing entries): CBMC does not finish on VecDeque::remove / push_back over heap entries even for one surviving entry (measured, 40 GB) -- so preservation of the invariant by set is decided only for stores into an empty cache and stores that evict everything, and the induction over histories is therefore NOT closed",
+        "set on populations of 2 (even when both entries are evicted: exit 6 / out of memory), get on populations above 2, item sizes above 4 bytes", "static.rs cache_check / inner_file_handler (format!-based logging, file system)", "concurrent access",
+    ],
+)
